@@ -3,6 +3,7 @@ from __future__ import annotations
 
 from typing import Any, Dict, List
 
+from harness.extract import action_mask as x_mask
 from harness.extract import request_core as x_core
 from harness.lib import scen
 from harness.lib.core import Ctx, lean_lock
@@ -28,28 +29,58 @@ EXE = "drv_c05"
 MASK_SCEN = ["data_manipulation", "test_primaite_session", "extended_config"]
 
 
+
+def _relist_action_maps(cfg: Dict, order: str, rng) -> int:
+    """Re-list the entries of every agent's `action_map` (a mapping: the order of its keys in the file is free; the schema only
+    wants every number 0..N-1 to be a key). Returns how many entries no longer stand at the position of their number."""
+    moved = 0
+    for a in cfg.get("agents", []):
+        am = (a.get("action_space") or {}).get("action_map")
+        if not isinstance(am, dict) or len(am) < 2 or order == "as-listed":
+            continue
+        keys = list(am.keys())
+        keys = list(reversed(keys)) if order == "reversed" else rng.shuffle(keys)
+        a["action_space"]["action_map"] = {k: am[k] for k in keys}
+        moved += sum(1 for pos, k in enumerate(keys) if k != pos)
+    return moved
+
+
 def env_level(ctx: Ctx):
     """Every action-map entry at every step: mask bit == would reach a handler (checked with stubbed handlers)."""
     rng = ctx.rng.fork("mask-env")
     shipped = scen.shipped()
     names = [n for n in MASK_SCEN if n in shipped][: ctx.scale(2, 3)]
     total = agree = executed = 0
-    for name in names:
+    for name, order in [(n, o) for n in names for o in (("as-listed", "shuffled") if not ctx.thorough else ("as-listed", "shuffled", "reversed"))]:
         try:
-            env = scen.make_env(scen.load_cfg(shipped[name]))
+            cfg = scen.load_cfg(shipped[name])
+            relisted = _relist_action_maps(cfg, order, rng)
+            env = scen.make_env(cfg)
         except Exception as e:
             ctx.notes.append(f"scenario {name} not buildable as env: {type(e).__name__}: {str(e)[:100]}")
             continue
-        for ep in range(ctx.scale(1, 3)):
-            env.reset(seed=rng.below(10 ** 6))
+        key_order = [list(((a.get("action_space") or {}).get("action_map") or {}).keys()) for a in cfg.get("agents", [])]
+        base_name = name
+        ctx.count(f"action-map-order:{order}")
+        ctx.count("action-map-entries-listed-out-of-ascending-order", relisted)
+        name = f"{name}[{order}]"
+        for ep in range(ctx.scale(1, 3) if order == "as-listed" else 1):
+            ep_seed = rng.below(10 ** 6)
+            env.reset(seed=ep_seed)
+            taken: List[Any] = []  # what led to the current state: action numbers (env.step) and raw requests (executed-action oracle)
             n_actions = env.action_space.n
             amap = env.agent.action_manager.action_map
             # bias towards power/service transitions so that transitional states are visited
             trans = [i for i, (ident, _) in amap.items() if any(k in ident for k in ("shutdown", "startup", "reset", "restart", "stop",
                                                                                        "install", "disable", "remove"))]
-            for step in range(ctx.scale(25, 120)):
+            for step in range(ctx.scale(25, 120) if order == "as-listed" else ctx.scale(12, 60)):
                 sim = env.game.simulation
                 mask = list(env.action_masks())
+                if len(mask) != n_actions or sorted(amap) != list(range(n_actions)):
+                    ctx.violation({"kind": "mask-length-or-numbering", "len": len(mask), "n": n_actions},
+                                  f"{name}: mask has {len(mask)} bits for {n_actions} actions / keys {sorted(amap)[:5]}…",
+                                  {"scenario": name, "episode": ep, "step": step})
+                    break
                 snap = rig.Snap(sim._request_manager)
                 with rig.Probe(sim, snap, stub=True) as probe:
                     for i, (ident, opts) in amap.items():
@@ -65,7 +96,8 @@ def env_level(ctx: Ctx):
                             ctx.violation({"kind": "mask-disagrees-with-execution", "mask": int(mask[i]), "outcome": out.split()[0],
                                            "action": ident},
                                           f"{name} ep{ep} step{step}: action {i} {ident} {opts}: mask={int(mask[i])} but __call__ -> {out}",
-                                          {"scenario": name, "episode": ep, "step": step, "action_index": i, "req": req})
+                                          {"mode": "mask-env", "scenario": base_name, "key_order": key_order, "seed": ep_seed,
+                                           "actions": list(taken), "episode": ep, "step": step, "action_index": i, "req": req})
                 # executed-action oracle: the mask bit computed immediately before REALLY executing the entry's request
                 fileops = [i for i, (ident, _) in amap.items() if "file" in ident or "folder" in ident]
                 for _ in range(ctx.scale(3, 6)):
@@ -74,6 +106,7 @@ def env_level(ctx: Ctx):
                     req = env.agent.action_manager.form_request(ident, opts)
                     bit = bool(sim._request_manager.check_valid(list(req), {}))
                     with rig.ValidatorSpy() as spy:
+                        taken.append(list(req))
                         try:
                             resp = sim.apply_request(list(req))
                         except Exception as e:
@@ -89,13 +122,16 @@ def env_level(ctx: Ctx):
                     if bit and (by_rule or st == "unreachable"):
                         ctx.violation({"kind": "allowed-action-refused-by-rule", "action": ident, "status": st},
                                       f"{name} ep{ep} step{step}: mask allowed action {i} {ident} {opts} but it was refused: {st} {reason!r}",
-                                      {"scenario": name, "episode": ep, "step": step, "action_index": i, "req": req, "reason": reason})
+                                      {"mode": "mask-exec", "scenario": base_name, "key_order": key_order, "seed": ep_seed,
+                                       "actions": list(taken[:-1]), "episode": ep, "step": step, "action_index": i, "req": req, "reason": reason})
                     if not bit and st == "success":
                         ctx.violation({"kind": "masked-out-action-succeeded", "action": ident},
                                       f"{name} ep{ep} step{step}: masked-out action {i} {ident} {opts} succeeded",
-                                      {"scenario": name, "episode": ep, "step": step, "action_index": i, "req": req})
+                                      {"mode": "mask-exec", "scenario": base_name, "key_order": key_order, "seed": ep_seed,
+                                       "actions": list(taken[:-1]), "episode": ep, "step": step, "action_index": i, "req": req})
                 a = rng.choice(trans) if trans and rng.chance(1, 2) else rng.below(n_actions)
                 env.step(a)
+                taken.append(int(a))
         env.close()
     ctx.cov["mask_entries_compared"] = total
     ctx.cov["actions_really_executed_against_their_mask_bit"] = executed
@@ -104,12 +140,55 @@ def env_level(ctx: Ctx):
 
 
 def replay(rec: dict) -> bool:
-    return c05.replay(rec)
+    rp = rec["replay"]
+    if rp.get("mode") not in ("mask-env", "mask-exec"):
+        return c05.replay(rec)
+    # rebuild the environment with the recorded listing order of every action map, re-seed, re-take the recorded actions, and
+    # compare the mask bit of the recorded entry with what __call__ does (stubbed handlers) at that state
+    cfg = scen.load_cfg(scen.shipped()[rp["scenario"]])
+    for a, keys in zip(cfg.get("agents", []), rp["key_order"]):
+        am = (a.get("action_space") or {}).get("action_map")
+        if isinstance(am, dict) and keys:
+            a["action_space"]["action_map"] = {k: am[k] for k in keys}
+    env = scen.make_env(cfg)
+    env.reset(seed=rp["seed"])
+    for a in rp["actions"]:
+        if isinstance(a, list):
+            try:
+                env.game.simulation.apply_request(list(a))
+            except Exception:
+                pass
+        else:
+            env.step(a)
+    sim = env.game.simulation
+    i = rp["action_index"]
+    bit = bool(list(env.action_masks())[i])
+    ident, opts = env.agent.action_manager.action_map[i]
+    req = env.agent.action_manager.form_request(ident, opts)
+    if rp["mode"] == "mask-exec":  # really execute the entry and apply the executed-action oracle
+        bit = bool(sim._request_manager.check_valid(list(req), {}))
+        with rig.ValidatorSpy() as spy:
+            try:
+                resp = sim.apply_request(list(req))
+            except Exception:
+                env.close()
+                return False
+        st = getattr(resp, "status", None)
+        reason = (getattr(resp, "data", {}) or {}).get("reason")
+        by_rule = st == "failure" and reason is not None and reason in spy.false_messages
+        env.close()
+        return not ((bit and (by_rule or st == "unreachable")) or (not bit and st == "success"))
+    snap = rig.Snap(sim._request_manager)
+    with rig.Probe(sim, snap, stub=True) as probe:
+        out, _ = probe.call(req)
+    env.close()
+    return bit == out.startswith("reached")
 
 
 def run(ctx: Ctx):
     with lean_lock():
         ctx.extract("RequestCore", x_core.emit)
+        ctx.extract("ActionMask", x_mask.emit)
         ctx.prove(MODULES, exes=[EXE], leanchecker=ctx.thorough)
     ctx.cov["rule"] = ("(a) every route / mutation / action request of live trees at random states: real check_valid vs model checkValid and vs "
                        "real dispatch; (b) every action-map entry at every step of random episodes on scenarios with action masking; "
